@@ -127,6 +127,10 @@ def build_cases(tier):
                lambda inp: [('(> in_0 0)', [('e', ['myErr', 'in_0'])], 'normal'), ('(<= in_0 0)', [('ok', [])], 'normal')]))
     C.append(T('panic_value_methods', 'type boom struct{ v int }\nfunc (b boom) Error() string { return "boom!" }\n', V + 'defer func() {\n\tr := recover()\n\tif e, isErr := r.(error); isErr {\n\t\tprintln("rec", e.Error(), r.(boom).v)\n\t}\n}()\nif a != b {\n\tpanic(boom{a})\n}\nprintln("none")',
                lambda inp: [('(not (= in_0 in_1))', [('rec', ['boom!', 'in_0'])], 'normal'), ('(= in_0 in_1)', [('none', [])], 'normal')]))
+    # unexported methods of a generic type whose signatures mention another generic type written in terms of the receiver's type parameter
+    C.append(T('generic_method_signatures', 'type node[T any] struct {\n\tv    T\n\tnext *node[T]\n}\nfunc (n *node[T]) prepend(v T) *node[T] { return &node[T]{v, n} }\nfunc (n *node[T]) length() int {\n\tc := 0\n\tfor ; n != nil; n = n.next {\n\t\tc++\n\t}\n\treturn c\n}\ntype pairOf[A, B any] struct {\n\ta A\n\tb B\n}\ntype stk[T any] struct{ head *node[T] }\nfunc (s *stk[T]) push(v T) { s.head = s.head.prepend(v) }\nfunc (s *stk[T]) top() pairOf[T, int] { return pairOf[T, int]{s.head.v, s.head.length()} }\ntype topper[T any] interface{ top() pairOf[T, int] }\n',
+               V + 's := &stk[int]{}\ns.push(a)\ns.push(b)\nvar t topper[int] = s\np := t.top()\nq := &stk[string]{}\nq.push("x")\nprintln("r", p.a, p.b, q.top().b, len(q.top().a))',
+               lambda inp: ok([('r', ['in_1', '2', '1', '1'])])))
     return C
 
 
